@@ -224,6 +224,16 @@ m('c10-dir-mtime-ignored', 'C10', Y, "            files = [path] + [os.path.join
 
 # Mutants that turned out to be semantically equivalent (the property still holds on them): a check that flagged one of
 # these would be raising a false alarm, so "not flagged" is the correct outcome.
+# ---- lazy set-up raced on first use (strata first-use) ----------------------------------------------------------------
+m('c01-lazy-keywords-race', 'C01', P, "        lowered = clean.lower()\n        if lowered in ('and', 'or', 'not'):\n",
+  "        lowered = clean.lower()\n        if lowered in _keywords():\n",
+  'the keyword table is built lazily, published empty and then filled: a thread tokenizing during the first fill reads and/or/not as checks')
+M[-1]['also_edit'] = [(P, "# Used for tokenizing the policy language\n", "_KEYWORDS = None\n\n\ndef _keywords():\n    global _KEYWORDS\n    if _KEYWORDS is None:\n        _KEYWORDS = set()\n        for word in ('and', 'or', 'not'):\n            _KEYWORDS.add(word)\n    return _KEYWORDS\n\n\n# Used for tokenizing the policy language\n")]
+m('c02-lazy-keywords-race', 'C02', P, "        lowered = clean.lower()\n        if lowered in ('and', 'or', 'not'):\n",
+  "        lowered = clean.lower()\n        if lowered in _keywords():\n",
+  'same lazily built keyword table, seen from C02: a dangling operator read as a check during the first fill')
+M[-1]['also_edit'] = list(M[-2]['also_edit'])
+
 EQUIVALENT = {
     'c01-mix-nested': 'operand order inside an n-ary AND does not change a decision',
     'c01-not-binds-loose': "the extra reducer can never fire: 'not check' is reduced greedily before an 'and' arrives",
